@@ -20,10 +20,12 @@ import (
 	"github.com/PowerDNS/lightningstream/lmdbenv/header"
 	"github.com/PowerDNS/lightningstream/snapshot"
 	"github.com/PowerDNS/lightningstream/syncer"
+	"github.com/PowerDNS/lightningstream/syncer/cleaner"
 	"github.com/PowerDNS/lightningstream/syncer/events"
 	"github.com/PowerDNS/lightningstream/syncer/hooks"
 	"github.com/PowerDNS/lightningstream/syncer/receiver"
 	"github.com/PowerDNS/lightningstream/syncer/sweeper"
+	"github.com/PowerDNS/lightningstream/utils"
 	"github.com/PowerDNS/lmdb-go/lmdb"
 	"github.com/PowerDNS/simpleblob"
 	"github.com/PowerDNS/simpleblob/backends/memory"
@@ -1507,4 +1509,208 @@ func sweeperForeignHeaderBytes(out *AreaOut) error {
 		}
 	}
 	return nil
+}
+
+// dupsortCollision (C03, C20; oracle only: 506-byte values are too large for the model's literals): shadow mode
+// with the dupsort hack, an MDB_DUPSORT application DBI holding two values under one key that agree in everything
+// the shadow key can hold (the first 506 - len(key) bytes) and differ after that — the hack cannot represent both.
+// Whatever Lightning Stream does with such a DBI (it refuses it), its own transactions must not destroy what the
+// application committed: after every LoadOnce / SendOnce, failed or not, the application DBI is exactly as committed.
+func dupsortCollision(out *AreaOut) error {
+	for _, viaSend := range []bool{false, true} {
+		out.OracleN++
+		env, cleanup, err := newEnv()
+		if err != nil {
+			return err
+		}
+		key := []byte("k01")
+		pre := bytes.Repeat([]byte{'x'}, 506-len(key))
+		vals := [][]byte{append(append([]byte{}, pre...), 'a'), append(append([]byte{}, pre...), 'b'), []byte("short")}
+		ops := []appOp{}
+		for _, v := range vals {
+			ops = append(ops, appOp{DBI: "dup", Flags: lmdb.DupSort, Key: key, Val: v})
+		}
+		ops = append(ops, appOp{DBI: "dup", Flags: lmdb.DupSort, Key: []byte("k02"), Val: []byte("other")})
+		if err := applyApp(env, false, uint64(time.Now().UnixNano()), ops); err != nil {
+			cleanup()
+			return err
+		}
+		readPairs := func() []string {
+			var ps []string
+			_ = env.View(func(txn *lmdb.Txn) error {
+				dbi, err := txn.OpenDBI("dup", 0)
+				if err != nil {
+					ps = append(ps, "DBI gone: "+err.Error())
+					return nil
+				}
+				c, err := txn.OpenCursor(dbi)
+				if err != nil {
+					return nil
+				}
+				defer c.Close()
+				for k, v, err := c.Get(nil, nil, lmdb.First); err == nil; k, v, err = c.Get(nil, nil, lmdb.Next) {
+					ps = append(ps, fmt.Sprintf("%s=%d:%x", k, len(v), v[len(v)-1:]))
+				}
+				return nil
+			})
+			return ps
+		}
+		want := readPairs()
+		sy, err := newSyncer(env, memory.New(), syncerOpts{Native: false, DupHack: true, Instance: "a"})
+		if err != nil {
+			cleanup()
+			return err
+		}
+		var errs []string
+		var pan any
+		func() {
+			defer func() { pan = recover() }()
+			for round := 0; round < 2; round++ {
+				if viaSend {
+					_, e := sy.SendOnce(context.Background(), env)
+					errs = append(errs, fmt.Sprint(e))
+				} else {
+					now := uint64(time.Now().UnixNano())
+					sn := buildSnapshot(3, 1, "b", now-10, nil)
+					upd := snapshot.Update{Snapshot: sn, NameInfo: snapshot.NameInfo{Kind: snapshot.KindSnapshot, InstanceID: "b", SyncerName: dbName, Timestamp: time.Unix(0, int64(now-10))}}
+					_, _, e := sy.LoadOnce(context.Background(), env, "b", upd, 0)
+					errs = append(errs, fmt.Sprint(e))
+				}
+			}
+		}()
+		got := readPairs()
+		cleanup()
+		hist(out.Hist, fmt.Sprintf("dupsort-collision/via-send=%v", viaSend))
+		in := map[string]any{"via": map[bool]string{false: "LoadOnce of an empty snapshot, twice", true: "SendOnce, twice"}[viaSend], "key": "k01", "values": "505 x 'x' + 'a', 505 x 'x' + 'b' (same shadow key), 'short'; k02=other", "results": errs}
+		if pan != nil {
+			for _, pid := range []string{"C03", "C20"} {
+				out.Oracle = append(out.Oracle, OracleFailure{pid, "no-panic", fmt.Sprint(pan), in})
+			}
+		}
+		if strings.Join(got, " ") != strings.Join(want, " ") {
+			for _, pid := range []string{"C03", "C20"} {
+				out.Oracle = append(out.Oracle, OracleFailure{pid, "committed-pairs-destroyed-by-own-transaction", fmt.Sprintf("the application committed the pairs %v to its MDB_DUPSORT DBI; after Lightning Stream's own transactions (results %v) the DBI holds %v — no other instance wrote anything", want, errs, got), in})
+			}
+		}
+	}
+	return nil
+}
+
+// zeroIntervalCancel (C17): the long-running loops configured with a ZERO interval (nothing in config.Check forbids
+// it for the cleaner and the sweeper; library users may pass it for the receiver) still return when their context
+// is cancelled, and utils.SleepContext itself notices a cancelled context whatever the duration.
+func zeroIntervalCancel(out *AreaOut) error {
+	quiet := logrus.New()
+	quiet.SetOutput(io.Discard)
+	run := func(what string, f func(ctx context.Context) error) {
+		out.OracleN++
+		ctx, cancel := context.WithCancel(context.Background())
+		done := make(chan error, 1)
+		go func() { done <- f(ctx) }()
+		time.Sleep(40 * time.Millisecond)
+		cancel()
+		hist(out.Hist, "zero-interval-cancel/"+what)
+		select {
+		case <-done:
+		case <-time.After(3 * time.Second):
+			out.Oracle = append(out.Oracle, OracleFailure{"C17", "cancel-not-returned/zero-interval", what + " with a zero interval did not return within 3 s after its context was cancelled", map[string]any{"component": what}})
+		}
+	}
+	// the primitive itself: with a cancelled context a zero sleep reports the cancellation (select picks among the two
+	// ready cases at random: 2000 calls all returning nil has probability 2^-2000 on a correct implementation)
+	out.OracleN++
+	cctx, ccancel := context.WithCancel(context.Background())
+	ccancel()
+	seen := false
+	for i := 0; i < 2000 && !seen; i++ {
+		seen = utils.SleepContext(cctx, 0) != nil
+	}
+	if !seen {
+		out.Oracle = append(out.Oracle, OracleFailure{"C17", "cancel-not-returned/zero-interval", "utils.SleepContext(cancelled context, 0) returned nil 2000 times in a row: a loop sleeping through it never notices the cancellation", map[string]any{"component": "utils.SleepContext"}})
+	}
+	run("Receiver.Run", func(ctx context.Context) error {
+		r := receiver.New(memory.New(), config.Config{StoragePollInterval: 0, StorageRetryInterval: 2 * time.Millisecond, MemoryDownloadedSnapshots: 2, MemoryDecompressedSnapshots: 2},
+			dbName, quiet, "self", events.New(), hooks.New())
+		return r.Run(ctx)
+	})
+	run("cleaner.Worker.Run", func(ctx context.Context) error {
+		w := cleaner.New(dbName, memory.New(), config.Cleanup{Enabled: true, Interval: 0, MustKeepInterval: time.Minute, RemoveOldInstancesInterval: time.Hour}, quiet)
+		return w.Run(ctx)
+	})
+	env, cleanup, err := swNewEnv()
+	if err != nil {
+		return err
+	}
+	err = env.Update(func(txn *lmdb.Txn) error {
+		dbi, err := txn.OpenDBI("app", lmdb.Create)
+		if err != nil {
+			return err
+		}
+		return txn.Put(dbi, []byte("k"), swVal(uint64(time.Now().UnixNano()), 0, []byte("v")), 0)
+	})
+	if err != nil {
+		cleanup()
+		return err
+	}
+	sw := sweeper.New("verif-zero", config.Sweeper{Enabled: true, RetentionDays: 1, FirstInterval: 0, Interval: 0, LockDuration: 10 * time.Millisecond, ReleaseDuration: 0}, env, quiet, true)
+	swDone := make(chan struct{})
+	run("sweeper.Run", func(ctx context.Context) error { defer close(swDone); return sw.Run(ctx) })
+	select {
+	case <-swDone:
+		cleanup()
+	case <-time.After(time.Second):
+		// still spinning: leave the environment open for it (the process ends soon)
+	}
+	return nil
+}
+
+// headerLargeExtension (C14, oracle only: the extension areas are up to 512 kB, too large for the model's
+// literals; the theorems C14_parse_sound / C14_rejects_short hold for every block count): values whose header
+// announces 255 ... 65535 extension blocks followed by the application value: Parse and Skip return exactly the
+// application value, NumExtra and Extra are right, and a value cut anywhere inside the announced extension area is
+// rejected as too short.
+func headerLargeExtension(out *AreaOut) {
+	for _, n := range []int{255, 256, 257, 4095, 4096, 8191, 8192, 8193, 12345, 32767, 32768, 65535} {
+		out.OracleN++
+		v := make([]byte, 24+8*n, 24+8*n+3)
+		binary.BigEndian.PutUint64(v[0:8], 1700000000000000000)
+		binary.BigEndian.PutUint64(v[8:16], 7)
+		binary.BigEndian.PutUint16(v[22:24], uint16(n))
+		for i := 24; i < len(v); i++ {
+			v[i] = byte(i*7 + 1)
+		}
+		v = append(v, "app"...)
+		bad := ""
+		func() {
+			defer func() {
+				if p := recover(); p != nil {
+					bad = fmt.Sprint("panic: ", p)
+				}
+			}()
+			h, a, err := header.Parse(v)
+			s, serr := header.Skip(v)
+			switch {
+			case err != nil || serr != nil:
+				bad = fmt.Sprintf("a well-formed value was rejected: Parse: %v, Skip: %v", err, serr)
+			case string(a) != "app" || string(s) != "app":
+				bad = fmt.Sprintf("application value is the 3 bytes \"app\"; Parse returned %d bytes, Skip %d bytes", len(a), len(s))
+			case h.NumExtra != n || len(h.Extra) != 8*n || !bytes.Equal(h.Extra, v[24:24+8*n]):
+				bad = fmt.Sprintf("Parse reports NumExtra=%d with %d extension bytes", h.NumExtra, len(h.Extra))
+			}
+			for _, cut := range []int{24, 24 + 8, 24 + 8*n/2, 24 + 8*n - 1} {
+				if bad != "" {
+					break
+				}
+				if _, _, err := header.Parse(v[:cut]); err == nil {
+					bad = fmt.Sprintf("the value cut to %d bytes (inside the announced extension area of %d bytes) was accepted by Parse", cut, 8*n)
+				} else if _, err := header.Skip(v[:cut]); err == nil {
+					bad = fmt.Sprintf("the value cut to %d bytes (inside the announced extension area of %d bytes) was accepted by Skip", cut, 8*n)
+				}
+			}
+		}()
+		hist(out.Hist, "parse/large-extension-area")
+		if bad != "" {
+			out.Oracle = append(out.Oracle, OracleFailure{"C14", "extension-blocks-of-any-count", fmt.Sprintf("header announcing %d extension blocks (%d bytes) followed by \"app\": %s", n, 8*n, bad), map[string]any{"blocks": n}})
+		}
+	}
 }
